@@ -3,20 +3,29 @@
 1. TLC checks spec/Sessions.tla (+ SessionsMC.tla) exhaustively: every interleaving of session creation,
    heartbeats, clock ticks, expiry, CloseSession, leader change and other clients' puts / deletes /
    range-deletes on the same keys - including between the TWO steps of a cleanup (session.delete lists the
-   shadow keys, then issues the delete write).  Properties: ShadowMirror, CloseExact (exactly the records owned
+   shadow keys, then issues the delete write).  A leader change elects a node whose DB lags its log by 0..2
+   entries: BecomeLeader replays that tail and THEN initialises the session manager (explicit in the spec;
+   the other order is a mutant that must be refuted).  On shards populated with 99 / 100 records the range
+   deletes of the alphabet cover 99..102 keys - both sides of the threshold (100) at which
+   db.go:applyDeleteRange changes strategy - with session-owned keys in front of and behind the block.  Properties: ShadowMirror, CloseExact (exactly the records owned
    at that moment disappear, atomically with the session record), ownership follows the last writer, writes
    naming a dead session are rejected, ephemeral records only vanish by overwrite / delete / end of their
    session, expiry only after a full timeout without heartbeats on the current leader, sessions survive a
-   leader change.  Two mutants of the specification (properties without the known-finding guard; cleanup that
-   skips the empty key) must be refuted - otherwise the properties are vacuous.
+   leader change.  Three mutants of the specification (properties without the known-finding guard; cleanup that
+   skips the empty key; session manager initialised before the log tail is replayed) must be refuted -
+   otherwise the properties are vacuous.
 2. spec -> code: every transition of bounded graphs and long simulated behaviours are replayed on a real RF=1
-   leader controller (CreateSession / KeepAlive / CloseSession / WriteBlock, leader change = close + new
-   controller + NewTerm + BecomeLeader).  Hooks under the build tag verif put the session timers on the
+   leader controller (CreateSession / KeepAlive / CloseSession / WriteBlock; leader change with lag 0 = close +
+   new controller + NewTerm + BecomeLeader; with lag k = a real follower controller on fresh directories is fed
+   the log through its Replicate stream with a commit offset k entries short, fenced, closed, and a leader
+   controller on ITS log and DB is told BecomeLeader).  Hooks under the build tag verif put the session timers on the
    harness's tick clock and park every cleanup between its listing and its delete write; after each step the
    outcome, the records, shadow keys, notification batch, version counter, the armed timers with their
    deadlines and the parked cleanups with the keys they listed are compared with the specification.
 3. code -> spec: random interleavings over a bigger key space (keys that need escaping, 4 sessions, timeouts
-   of 1-3 ticks, 2 operations per request, index entries) are recorded and judged by TLC (SessTrace.tla), which
+   of 1-3 ticks, 2 operations per request, index entries, elections with lag 0..3, one trace in six on a shard
+   populated with 96..104 records and range deletes with bounds in and around that block) are recorded and
+   judged by TLC (SessTrace.tla), which
    also evaluates every C14 property on every step of the real execution.
 4. Known findings are replayed from their witnesses on every run (design/C14.md).
 """
@@ -45,8 +54,12 @@ def _show(beh):
             out.append(_db.show_req(s["req"]))
         elif a == "Create":
             out.append("Create(timeout %d)" % s["to"])
-        elif a in ("Tick", "LeaderChange"):
+        elif a == "Tick":
             out.append(a)
+        elif a == "LeaderChange":
+            out.append("LeaderChange(lag %d)" % s.get("lag", 0))
+        elif a == "Fill":
+            out.append("Fill(%d records)" % s.get("fill", 0))
         else:
             out.append("%s(%d)" % (a, s["s"]))
     return " ; ".join(out)
@@ -111,9 +124,10 @@ def _report_trace(ctx, path, verdict, hw, total, r, label):
                   (kind, len(calls) - 1, _show(calls), last.get("out"), last.get("armed"), last.get("pend")), p)
 
 
-def _drive(ctx, binp, n, ops, label, salt, racy=10):
+def _drive(ctx, binp, n, ops, label, salt, racy=10, big=6):
     tp = os.path.join(ctx.scratch, "trace-%s.ndjson" % label)
-    ctx.run([binp, "drive", "-seed", str(ctx.seed * 1000 + salt), "-n", str(n), "-ops", str(ops), "-racy", str(racy), "-out", tp])
+    ctx.run([binp, "drive", "-seed", str(ctx.seed * 1000 + salt), "-n", str(n), "-ops", str(ops), "-racy", str(racy),
+             "-big", str(big), "-out", tp])
     verdict, hw, total, r = _validate(ctx, tp, "sess-trace.cfg", label)
     if verdict == "accepted":
         ctx.traces_validated += n
@@ -169,20 +183,24 @@ def run(ctx):
     quick = ctx.tier == "quick"
     ctx.assumptions += [
         "time is the tick counter of the injected session timers (hook VerifNewSessionTimer); one tick = 10 s of session timeout; real timers are not exercised",
-        "a leader change is a new leader controller on the same WAL and DB (close, NewLeaderController, NewTerm, BecomeLeader with RF=1): sessions are re-armed by Initialize from the DB; a leader change while a cleanup is between its two steps is not enumerated (see known finding sessExpiryVsNewTerm)",
+        "a leader change with lag 0 is a new leader controller on the same WAL and DB (close, NewLeaderController, NewTerm, BecomeLeader with RF=1); with lag k > 0 the new leader runs on the log and DB of a real follower controller that was fed the whole log with a commit offset k entries short (every entry of the old leader's log is on the elected node: what was acknowledged to a client is never lost - C01-C08's subject); a leader change while a cleanup is between its two steps is not enumerated (see known finding sessExpiryVsNewTerm)",
+        "range deletes above the code's threshold are reached by populating the shard with plain records a-001.. (Fill) as the first call of a behaviour; the session-owned keys sort before (a) and after (b, a/b, ...) that block",
         "CloseSession of a session that is expiring (it waits for the expiry) is not enumerated",
         "puts are unconditional in the enumerated alphabet (conditional writes are C12's subject; the random driver mixes them in)",
     ]
     # 1. the model
     r = ctx.tlc("SessionsMC", "sess-quick.cfg", label="model", heap="4g")
-    ctx.log("Sessions (4 offsets, 2 sessions, 2 keys, 3 ticks, 1 heartbeat, 1 leader change): %d distinct states, %d transitions" % (r.distinct, r.generated))
+    ctx.log("Sessions (4 offsets, 2 sessions, 2 keys, 3 ticks, 1 heartbeat, 1 leader change electing a node that lags by 0..2 entries): %d distinct states, %d transitions" % (r.distinct, r.generated))
     if not quick:
-        for cfg, what in (("sess-thorough-a.cfg", "5 offsets"), ("sess-thorough-b.cfg", "5 offsets, empty key, timeouts {1,2}, 2 heartbeats"),
-                          ("sess-thorough-c.cfg", "key that needs escaping")):
+        for cfg, what in (("sess-thorough-a.cfg", "5 offsets, lag 0..1"), ("sess-thorough-b.cfg", "5 offsets, empty key, timeouts {1,2}, 2 heartbeats"),
+                          ("sess-thorough-c.cfg", "key that needs escaping"),
+                          ("sess-big.cfg", "shard populated with 98..101 records, 4 offsets, expiry, lag 0..1"),
+                          ("sess-big-b.cfg", "shard populated with 99 / 100 records, 5 offsets, 2 sessions")):
             r = ctx.tlc("SessionsMC", cfg, label=cfg[5:-4], heap="6g")
             ctx.log("Sessions (%s): %d distinct states, %d transitions" % (what, r.distinct, r.generated))
     for cfg, what in (("sess-mutant-unguarded.cfg", "the properties without the known-finding guard"),
-                      ("sess-mutant-emptykey.cfg", "a cleanup that skips the empty key")):
+                      ("sess-mutant-emptykey.cfg", "a cleanup that skips the empty key"),
+                      ("sess-mutant-initfirst.cfg", "a new leader that initialises its session manager before it has replayed the tail of its log")):
         m = ctx.tlc("SessionsMC", cfg, label=cfg[5:-4], heap="4g", allow_violation=True)
         if not m.violated:
             raise vf.Inconclusive("mutant %s is not refuted by TLC: the C14 properties are vacuous" % cfg)
@@ -191,9 +209,16 @@ def run(ctx):
     binp = ctx.go_build("sesscheck")
 
     # 2. spec -> code
-    for cfg in (("sess-steps.cfg", "sess-steps-e.cfg") if quick else ("sess-steps.cfg", "sess-steps-e.cfg", "sess-steps-b.cfg", "sess-steps-c.cfg")):
+    # (sess-steps-lag: only the behaviours that elect a node with a lagging DB; sess-steps-big: only those on a
+    # populated shard, checked against the properties in the same run)
+    steps = ["sess-steps.cfg", "sess-steps-e.cfg", "sess-steps-lag.cfg", "sess-steps-big.cfg"]
+    if not quick:
+        steps += ["sess-steps-b.cfg", "sess-steps-c.cfg", "sess-steps-lag-b.cfg", "sess-steps-big-b.cfg"]
+    for cfg in steps:
         label = cfg[5:-4]
-        path, n, _ = _export(ctx, cfg, "STEP", label)
+        path, n, r = _export(ctx, cfg, "STEP", label)
+        if "big" in cfg:
+            ctx.log("Sessions (populated shard, %s): %d distinct states, %d transitions, properties hold" % (cfg, r.distinct, r.generated))
         _replay(ctx, binp, path, label)
         if cfg == "sess-steps.cfg":
             with open(path) as f:
@@ -205,7 +230,7 @@ def run(ctx):
     _replay(ctx, binp, path, "runs")
 
     # 3. code -> spec
-    tp = _drive(ctx, binp, 150 if quick else 1200, 30, "random", 1)
+    tp = _drive(ctx, binp, 100 if quick else 600, 30, "random", 1, big=7 if quick else 5)
     if not ctx.violations:
         _selftest(ctx, tp)
         with open(tp) as f:
